@@ -580,45 +580,375 @@ fn float_table(f: &Frame) -> String {
     format!("[{}]", rows.join("; "))
 }
 
+
+// ------------------------------------------------------------------ redis.call stream
+const LUA_SUBSET: &[&str] = &["GET", "SET", "DEL", "INCR", "DECR", "INCRBY", "HGET", "HSET", "HDEL", "LPUSH", "RPUSH", "LPOP", "RPOP", "LLEN", "SADD", "SREM", "SMEMBERS", "EXISTS", "EXPIRE", "TTL", "TYPE", "HINCRBY", "LRANGE", "RPOPLPUSH", "LMOVE", "HGETALL", "SISMEMBER", "ZADD", "ZREM", "ZRANGE", "ZSCORE", "ZCARD", "ZCOUNT", "ZRANGEBYSCORE"];
+const LKEYS: &[&[u8]] = &[b"k", b"j", b"l", b"s", b"h", b"z", b"nokey"];
+
+fn resp_term(r: &RespValue) -> String {
+    match r {
+        RespValue::SimpleString(x) => format!("(RS {})", chex(x.as_bytes())),
+        RespValue::Error(x) => format!("(RE {})", chex(x.as_bytes())),
+        RespValue::Integer(n) => format!("(RI ({}))", n),
+        RespValue::BulkString(None) => "(RB None)".to_string(),
+        RespValue::BulkString(Some(b)) => format!("(RB (Some {}))", chex(b)),
+        RespValue::Array(None) => "(RA None)".to_string(),
+        RespValue::Array(Some(v)) => format!("(RA (Some {}))", clist(v.iter(), resp_term)),
+    }
+}
+fn sanitize(x: &str) -> String {
+    x.replace(|c: char| c == '\r' || c == '\n', " ")
+}
+/// lua_to_resp (resp_to_lua r) as the code has it (nil stays nil: arrays end at the first nil)
+fn conv_coded(r: &RespValue) -> RespValue {
+    match r {
+        RespValue::SimpleString(x) => RespValue::SimpleString(Cow::Owned(sanitize(x))),
+        RespValue::Error(x) => RespValue::Error(Cow::Owned(sanitize(x))),
+        RespValue::Integer(n) => RespValue::Integer(*n),
+        RespValue::BulkString(b) => RespValue::BulkString(b.clone()),
+        RespValue::Array(None) => RespValue::BulkString(None),
+        RespValue::Array(Some(v)) => {
+            let mut out = Vec::new();
+            for e in v {
+                if matches!(e, RespValue::BulkString(None) | RespValue::Array(None)) { break; }
+                out.push(conv_coded(e));
+            }
+            RespValue::Array(Some(out))
+        }
+    }
+}
+/// the conversion Redis documents (nil -> false -> nil): arrays keep their nils
+fn conv_redis(r: &RespValue) -> RespValue {
+    match r {
+        RespValue::Array(None) => RespValue::BulkString(None),
+        RespValue::Array(Some(v)) => RespValue::Array(Some(v.iter().map(conv_redis).collect())),
+        RespValue::SimpleString(x) => RespValue::SimpleString(Cow::Owned(sanitize(x))),
+        RespValue::Error(x) => RespValue::Error(Cow::Owned(sanitize(x))),
+        o => o.clone(),
+    }
+}
+fn has_nil(r: &RespValue) -> bool {
+    match r {
+        RespValue::BulkString(None) | RespValue::Array(None) => true,
+        RespValue::Array(Some(v)) => v.iter().any(has_nil),
+        _ => false,
+    }
+}
+fn exec_frame(ex: &mut CommandExecutor, parts: &[Vec<u8>]) -> Result<RespValue, String> {
+    let v = RespValue::Array(Some(parts.iter().map(|p| RespValue::BulkString(Some(p.clone()))).collect()));
+    let c = Command::from_resp(&v)?;
+    Ok(ex.execute(&c))
+}
+fn bs(x: &[&[u8]]) -> Vec<Vec<u8>> {
+    x.iter().map(|y| y.to_vec()).collect()
+}
+fn dump(ex: &mut CommandExecutor) -> Vec<String> {
+    let mut keys: Vec<String> = ex.get_data().keys().cloned().collect();
+    keys.sort();
+    let mut out = Vec::new();
+    for k in keys {
+        let kb = k.as_bytes();
+        let ty = format!("{:?}", exec_frame(ex, &bs(&[b"TYPE", kb])));
+        let val = if ty.contains("string") { exec_frame(ex, &bs(&[b"GET", kb])) }
+            else if ty.contains("list") { exec_frame(ex, &bs(&[b"LRANGE", kb, b"0", b"-1"])) }
+            else if ty.contains("zset") { exec_frame(ex, &bs(&[b"ZRANGE", kb, b"0", b"-1", b"WITHSCORES"])) }
+            else if ty.contains("set") { exec_frame(ex, &bs(&[b"SMEMBERS", kb])).map(sort_arr) }
+            else if ty.contains("hash") { exec_frame(ex, &bs(&[b"HGETALL", kb])).map(sort_pairs) }
+            else { Ok(RespValue::BulkString(None)) };
+        let ttl = exec_frame(ex, &bs(&[b"PTTL", kb]));
+        out.push(format!("{:?} {} {:?} ttl={:?}", k, ty, val, ttl));
+    }
+    out
+}
+fn sort_arr(r: RespValue) -> RespValue {
+    match r {
+        RespValue::Array(Some(mut v)) => { v.sort_by_key(|e| format!("{:?}", e)); RespValue::Array(Some(v)) }
+        o => o,
+    }
+}
+fn sort_pairs(r: RespValue) -> RespValue {
+    match r {
+        RespValue::Array(Some(v)) => {
+            let mut ps: Vec<Vec<RespValue>> = v.chunks(2).map(|c| c.to_vec()).collect();
+            ps.sort_by_key(|e| format!("{:?}", e));
+            RespValue::Array(Some(ps.into_iter().flatten().collect()))
+        }
+        o => o,
+    }
+}
+fn gen_setup(rng: &mut Rng) -> Vec<Vec<Vec<u8>>> {
+    let all: Vec<Vec<&[u8]>> = vec![
+        vec![b"SET", b"k", b"v"], vec![b"SET", b"j", b"10"], vec![b"RPUSH", b"l", b"a", b"b", b"c"], vec![b"SADD", b"s", b"a", b"b"],
+        vec![b"HSET", b"h", b"f", b"1", b"g", b"x"], vec![b"ZADD", b"z", b"1", b"a", b"2", b"b", b"3", b"c"], vec![b"EXPIRE", b"k", b"100"],
+        vec![b"SET", b"k", b"\x00\xff"], vec![b"SET", b"l", b"notalist"],
+    ];
+    all.into_iter().filter(|_| rng.gen_bool(0.55)).map(|f| bs(&f)).collect()
+}
+fn gen_lua_parts(rng: &mut Rng) -> (Vec<Vec<u8>>, String) {
+    loop {
+        let want_subset = rng.gen_bool(0.8);
+        let spec = &SPECS[rng.gen_range(0..SPECS.len())];
+        if want_subset != LUA_SUBSET.contains(&spec.name) { continue; }
+        // reuse the frame generator's shape through a throw-away rng-driven build
+        let mut parts: Vec<Vec<u8>> = vec![recase(rng, spec.name, 0.03)];
+        for w in spec.prefix { parts.push(recase(rng, w, 0.0)); }
+        let arg = |rng: &mut Rng, k: char| -> Vec<u8> {
+            if k == 'K' && rng.gen_bool(0.85) { pick(rng, LKEYS).to_vec() }
+            else if (k == 'I' || k == 'U') && rng.gen_bool(0.7) { rng.gen_range(-2..6i64).to_string().into_bytes() }
+            else if k == 'F' && rng.gen_bool(0.7) { pick(rng, &["1", "2.5", "-1", "inf", "1e2"]).as_bytes().to_vec() }
+            else if k == 'V' && rng.gen_bool(0.7) { pick(rng, &[b"a" as &[u8], b"b", b"f", b"g", b"zz", b"5"]).to_vec() }
+            else if k == 'S' && rng.gen_bool(0.7) { pick(rng, &[b"-inf" as &[u8], b"+inf", b"0", b"(1", b"2", b"*"]).to_vec() }
+            else { gen_arg(rng, k) }
+        };
+        for k in spec.pos.chars() { let a = arg(rng, k); parts.push(a); }
+        match spec.tail {
+            "K" | "V" => { for _ in 0..rng.gen_range(0..4) { let a = arg(rng, spec.tail.chars().next().unwrap()); parts.push(a); } }
+            "P" => { for j in 0..rng.gen_range(0..6) { let a = arg(rng, if j % 2 == 0 { 'K' } else { 'V' }); parts.push(a); } }
+            "Q" => { for _ in 0..rng.gen_range(0..6) { let a = arg(rng, 'V'); parts.push(a); } }
+            "Z" => {
+                for _ in 0..rng.gen_range(0..3) { let w = pick(rng, &["NX", "XX", "GT", "LT", "CH"]); parts.push(recase(rng, w, 0.0)); }
+                for _ in 0..rng.gen_range(0..3) { let a = arg(rng, 'F'); parts.push(a); let b = arg(rng, 'V'); parts.push(b); }
+                if rng.gen_bool(0.15) { let a = arg(rng, 'V'); parts.push(a); }
+            }
+            "E" => { parts.push(b"0".to_vec()); }
+            "O" => {
+                for _ in 0..rng.gen_range(0..4) {
+                    let (kw, vals) = spec.kws[rng.gen_range(0..spec.kws.len())];
+                    parts.push(recase(rng, kw, 0.0));
+                    for k in vals.chars() { let a = arg(rng, k); parts.push(a); }
+                }
+            }
+            _ => {}
+        }
+        match rng.gen_range(0..14) {
+            0 => { let n = parts.len().saturating_sub(1).max(1); parts.truncate(n); }
+            1 => { let a = arg(rng, 'K'); parts.push(a); }
+            _ => {}
+        }
+        let label = spec.name.to_string();
+        return (parts, label);
+    }
+}
+const DESCRIBE: &str = r#"
+local function hx(s) return (s:gsub('.', function(c) return string.format('%02x', c:byte()) end)) end
+local function d(v)
+  local t = type(v)
+  if t == 'nil' then return 'LNil'
+  elseif t == 'boolean' then return v and '(LBool true)' or '(LBool false)'
+  elseif t == 'number' then
+    if math.type(v) == 'integer' then return '(LInt (' .. string.format('%d', v) .. '))' else return '(LF "' .. hx(tostring(v)) .. '")' end
+  elseif t == 'string' then return '(LS "' .. hx(v) .. '")'
+  elseif t == 'table' then
+    local n = 0
+    for k, _ in pairs(v) do if math.type(k) == 'integer' and k > n then n = k end end
+    local parts = {}
+    for i = 1, n do parts[#parts + 1] = d(v[i]) end
+    local ok = 'None'; if v.ok ~= nil then ok = '(Some ' .. d(v.ok) .. ')' end
+    local er = 'None'; if v.err ~= nil then er = '(Some ' .. d(v.err) .. ')' end
+    return '(LTab ' .. ok .. ' ' .. er .. ' [' .. table.concat(parts, '; ') .. '])'
+  else return 'LNil' end
+end
+"#;
+fn eval(ex: &mut CommandExecutor, script: &str, argv: &[Vec<u8>]) -> Result<RespValue, String> {
+    let c = Command::Eval { script: script.to_string(), keys: vec![], args: argv.iter().map(|a| SDS::new(a.clone())).collect() };
+    catch_unwind(AssertUnwindSafe(|| ex.execute(&c))).map_err(panic_msg)
+}
+fn parts_show(parts: &[Vec<u8>]) -> String {
+    parts.iter().map(|p| format!("{:?}", String::from_utf8_lossy(p))).collect::<Vec<_>>().join(" ")
+}
+
+// ------------------------------------------------------------------ Lua value stream
+#[derive(Clone, Debug)]
+enum LV {
+    Nil,
+    Bool(bool),
+    Int(i64),
+    Num(f64),
+    Str(Vec<u8>),
+    Tab(Option<Box<LV>>, Option<Box<LV>>, Vec<LV>),
+}
+fn lv_src(v: &LV) -> String {
+    match v {
+        LV::Nil => "nil".to_string(),
+        LV::Bool(b) => b.to_string(),
+        LV::Int(n) => if *n == i64::MIN { "math.mininteger".to_string() } else { format!("({})", n) },
+        LV::Num(f) => if f.is_infinite() { (if *f > 0.0 { "(1/0)" } else { "(-1/0)" }).to_string() } else { format!("({:?})", f) },
+        LV::Str(b) => format!("\"{}\"", b.iter().map(|c| format!("\\{:03}", c)).collect::<String>()),
+        LV::Tab(ok, err, arr) => {
+            let mut fs: Vec<String> = Vec::new();
+            if let Some(o) = ok { fs.push(format!("ok={}", lv_src(o))); }
+            if let Some(e) = err { fs.push(format!("err={}", lv_src(e))); }
+            for a in arr { fs.push(lv_src(a)); }
+            format!("{{{}}}", fs.join(", "))
+        }
+    }
+}
+fn lv_term(v: &LV) -> String {
+    match v {
+        LV::Nil => "LNil".to_string(),
+        LV::Bool(b) => format!("(LBool {})", b),
+        LV::Int(n) => format!("(LInt ({}))", n),
+        LV::Num(f) => format!("(LF {})", chex(format!("{}", f).as_bytes())),
+        LV::Str(b) => format!("(LS {})", chex(b)),
+        LV::Tab(ok, err, arr) => format!("(LTab {} {} {})", copt(&ok.as_deref(), |x| lv_term(x)), copt(&err.as_deref(), |x| lv_term(x)), clist(arr.iter(), lv_term)),
+    }
+}
+fn gen_lv(rng: &mut Rng, depth: u32) -> LV {
+    let c = rng.gen_range(0..if depth == 0 { 9 } else { 14 });
+    match c {
+        0 => LV::Nil,
+        1 => LV::Bool(rng.gen_bool(0.5)),
+        2 | 3 => LV::Int(*[0i64, 1, -1, 42, i64::MAX, i64::MIN, 1000000].choose(rng).unwrap()),
+        4 => LV::Num(*[1.5f64, 3.0, -0.0, 1e100, 0.1, f64::INFINITY, -2.5e-7, 1e15, 123456789012345680.0].choose(rng).unwrap()),
+        5..=8 => LV::Str(pick(rng, &[b"OK" as &[u8], b"", b"a\r\nb", b"\xff\x00", b"caf\xc3\xa9", b"ERR x", b"hello", b"12"]).to_vec()),
+        _ => {
+            let field = |rng: &mut Rng| -> Option<Box<LV>> {
+                if rng.gen_bool(0.3) {
+                    Some(Box::new(match rng.gen_range(0..8) { 0 => LV::Int(5), 1 => LV::Bool(true), 2 => LV::Nil, 3 => LV::Tab(None, None, vec![]), _ => LV::Str(pick(rng, &[b"OK" as &[u8], b"a\r\nb", b"\xff", b"ERR bad", b""]).to_vec()) }))
+                } else { None }
+            };
+            let ok = field(rng);
+            let err = field(rng);
+            let n = rng.gen_range(0..5);
+            LV::Tab(ok, err, (0..n).map(|_| gen_lv(rng, depth - 1)).collect())
+        }
+    }
+}
+
 fn main() {
     let a: Vec<String> = std::env::args().collect();
     let args = &Args::parse(&a[1..]);
     std::panic::set_hook(Box::new(|_| {}));
     let mut out = Out::new(&args.out, "C16", args.shards, HEADER);
-    out.nontrivial_rule = "stream P: grammar-directed request frames (every command name of both parsers in random letter case incl. non-ASCII characters that upper-case to ASCII, arity -2..+2 around each bound, option keywords in any order / duplicated / without value, numbers at and beyond i64/u64/u32 limits with signs, leading zeros, spaces, exponents, empty, non-UTF-8 and non-bulk elements, unknown names, non-array frames); non-trivial = the frame names a command of the table (not decided by 'unknown command' / 'Invalid command format'); distinct by frame bytes".to_string();
+    out.nontrivial_rule = "stream P (7/10 of the cases): grammar-directed request frames for both parsers (every command name of the table in random letter case incl. non-ASCII characters that upper-case to ASCII, arity -2..+2 around each bound, option keywords in any order / duplicated / without value, numbers at and beyond i64/u64/u32 limits with signs, leading zeros, spaces, exponents, empty, non-UTF-8 and non-bulk elements, unknown names, non-array frames); stream L (2/10): a keyspace prefix, then one invocation run directly, through redis.call/redis.pcall(table.unpack(ARGV)) and through a script that prints the Lua value it saw, on twin executors (80% names of the redis.call subset); stream V (1/10): Lua literals (nil, booleans, integers at the i64 limits, floats, binary strings, tables with ok/err fields, holes and nesting) returned from a script. Non-trivial = P: the frame names a command of the table (not decided by 'unknown command' / 'Invalid command format'); L: the invocation was accepted by the direct parser; V: the literal is a table. Distinct by frame / invocation+prefix / literal".to_string();
     let range: Vec<u64> = match args.only { Some(i) => vec![i], None => (0..args.n).collect() };
     let verbose = args.only.is_some();
     for idx in range {
         let mut rng = case_rng(args.seed, idx);
-        let (frame, label) = gen_frame(&mut rng);
-        let r1 = run_std(&frame);
-        let r2 = run_zc(&frame);
-        out.impl_checks += 2;
-        out.count(&format!("cmd:{}", label));
-        out.count(match &r1 { PR::Ok { .. } => "outcome:ok", PR::Err(_) => "outcome:err", PR::Panic(_) => "outcome:panic" });
-        let detail = json!({"frame": frame_show(&frame), "frame_hex": match &frame { Frame::Arr(v) => v.iter().map(|e| match e { El::Bulk(b) => hex(b), o => format!("{:?}", o) }).collect::<Vec<_>>(), o => vec![format!("{:?}", o)] },
-            "from_resp": pr_show(&r1), "from_resp_zero_copy": pr_show(&r2)});
-        // O1: no panic
-        for (who, r) in [("from_resp", &r1), ("from_resp_zero_copy", &r2)] {
-            if let PR::Panic(m) = r {
-                out.violation(idx, &format!("{} panics on a client frame: {}", who, m), detail.clone());
-            }
-        }
-        // O2: same command or same error text
-        if !pr_same(&r1, &r2) {
-            out.violation(idx, "the two parsers disagree on a frame", detail.clone());
-        }
-        let dom = in_model_domain(&frame);
-        if !dom { out.count("domain:outside-uppercase-model(parser-vs-parser only)"); }
-        let nontrivial = match &r1 { PR::Ok { tag, .. } => tag != "Unknown", PR::Err(e) => e != "Invalid command format", PR::Panic(_) => true };
-        if dom {
-            let term = format!("(KP {} {} {} {})", frame_term(&frame), pr_term(&r1), pr_term(&r2), float_table(&frame));
-            out.case(idx, term, nontrivial, &frame_term(&frame));
-        }
-        out.sample(detail.clone());
-        if verbose {
-            println!("case {} [{}]\n frame: {}\n from_resp           -> {}\n from_resp_zero_copy -> {}", idx, label, frame_show(&frame), pr_show(&r1), pr_show(&r2));
+        match idx % 10 {
+            0..=6 => case_p(&mut out, &mut rng, idx, verbose),
+            7 | 8 => case_l(&mut out, &mut rng, idx, verbose),
+            _ => case_v(&mut out, &mut rng, idx, verbose),
         }
     }
     out.finish(args.seed);
+}
+
+fn case_p(out: &mut Out, rng: &mut Rng, idx: u64, verbose: bool) {
+    let (frame, label) = gen_frame(rng);
+    let r1 = run_std(&frame);
+    let r2 = run_zc(&frame);
+    out.impl_checks += 2;
+    out.count("stream:P");
+    out.count(&format!("cmd:{}", label));
+    out.count(match &r1 { PR::Ok { .. } => "outcome:ok", PR::Err(_) => "outcome:err", PR::Panic(_) => "outcome:panic" });
+    let detail = json!({"frame": frame_show(&frame), "frame_hex": match &frame { Frame::Arr(v) => v.iter().map(|e| match e { El::Bulk(b) => hex(b), o => format!("{:?}", o) }).collect::<Vec<_>>(), o => vec![format!("{:?}", o)] },
+        "from_resp": pr_show(&r1), "from_resp_zero_copy": pr_show(&r2)});
+    // O1: no panic
+    for (who, r) in [("from_resp", &r1), ("from_resp_zero_copy", &r2)] {
+        if let PR::Panic(m) = r {
+            out.violation(idx, &format!("{} panics on a client frame: {}", who, m), detail.clone());
+        }
+    }
+    // O2: same command or same error text
+    if !pr_same(&r1, &r2) {
+        out.violation(idx, "the two parsers disagree on a frame", detail.clone());
+    }
+    let dom = in_model_domain(&frame);
+    if !dom { out.count("domain:outside-uppercase-model(parser-vs-parser only)"); }
+    let nontrivial = match &r1 { PR::Ok { tag, .. } => tag != "Unknown", PR::Err(e) => e != "Invalid command format", PR::Panic(_) => true };
+    if dom {
+        let term = format!("(KP {} {} {} {})", frame_term(&frame), pr_term(&r1), pr_term(&r2), float_table(&frame));
+        out.case(idx, term, nontrivial, &frame_term(&frame));
+    }
+    out.sample(detail.clone());
+    if verbose {
+        println!("case {} [P {}]\n frame: {}\n from_resp           -> {}\n from_resp_zero_copy -> {}", idx, label, frame_show(&frame), pr_show(&r1), pr_show(&r2));
+    }
+}
+
+fn case_l(out: &mut Out, rng: &mut Rng, idx: u64, verbose: bool) {
+    let setup = gen_setup(rng);
+    let (parts, label) = gen_lua_parts(rng);
+    let use_call = rng.gen_bool(0.3);
+    out.count("stream:L");
+    out.count(&format!("lua:{}", label));
+    let mut exs: Vec<CommandExecutor> = (0..3).map(|_| CommandExecutor::new()).collect();
+    for ex in exs.iter_mut() {
+        for f in &setup { let _ = exec_frame(ex, f); }
+    }
+    let (mut xa, mut xb, mut xc) = { let mut it = exs.into_iter(); (it.next().unwrap(), it.next().unwrap(), it.next().unwrap()) };
+    // A: direct
+    let direct = match catch_unwind(AssertUnwindSafe(|| exec_frame(&mut xa, &parts))) {
+        Ok(r) => r,
+        Err(_) => { out.count("lua:direct-execution-panicked(skipped)"); return; }
+    };
+    // B: through the script; C: what the script saw
+    let fname = if use_call { "call" } else { "pcall" };
+    let script_b = format!("return redis.{}(table.unpack(ARGV))", fname);
+    let script_c = format!("{}\nreturn d(redis.pcall(table.unpack(ARGV)))", DESCRIBE);
+    let rb = eval(&mut xb, &script_b, &parts);
+    let rc = eval(&mut xc, &script_c, &parts);
+    let (rb, rc) = match (rb, rc) { (Ok(b), Ok(c)) => (b, c), _ => { out.count("lua:script-execution-panicked"); out.violation(idx, "EVAL panicked", json!({"parts": parts_show(&parts)})); return; } };
+    out.impl_checks += 3;
+    let name = String::from_utf8_lossy(&parts[0]).to_uppercase();
+    let in_subset = LUA_SUBSET.contains(&name.as_str());
+    let direct_unknown = matches!(&direct, Ok(RespValue::Error(e)) if e.starts_with("ERR unknown command"));
+    let seen = match &rc { RespValue::BulkString(Some(b)) => Some(String::from_utf8_lossy(b).to_string()), _ => None };
+    let detail = json!({"prefix": setup.iter().map(|f| parts_show(f)).collect::<Vec<_>>(), "invocation": parts_show(&parts), "via": fname,
+        "direct": format!("{:?}", direct), "script_reply": format!("{:?}", rb), "script_saw": seen});
+    let (da, db) = (dump(&mut xa), dump(&mut xb));
+    // O3 / O4
+    let is_err = |r: &RespValue| matches!(r, RespValue::Error(_));
+    let refused = matches!(&rb, RespValue::Error(e) if e.contains("Unknown Redis command"));
+    if !in_subset && refused {
+        if direct.is_ok() && !direct_unknown {
+            out.known("C16-lua-command-subset", idx, detail.clone());
+        } else {
+            out.count("lua:outside-subset-and-refused-by-both");
+        }
+        let _ = (&da, &db); // a refused call changes nothing; the direct command did run
+    } else {
+        let expected: RespValue = match &direct { Ok(r) => conv_coded(r), Err(e) => RespValue::Error(Cow::Owned(sanitize(e))) };
+        let ok_reply = if use_call && is_err(&expected) {
+            match (&rb, &expected) { (RespValue::Error(got), RespValue::Error(want)) => got.contains(want.as_ref()), _ => false }
+        } else { rb == expected };
+        if !ok_reply {
+            out.violation(idx, "script call and direct call give different results", detail.clone());
+        } else if let Ok(r) = &direct {
+            if conv_redis(r) != conv_coded(r) { out.known("C16-lua-nil-not-false", idx, detail.clone()); }
+        }
+        if da != db {
+            let mut d2 = detail.clone();
+            d2["keyspace_direct"] = json!(da); d2["keyspace_script"] = json!(db);
+            out.violation(idx, "script call and direct call leave different keyspaces", d2);
+        }
+    }
+    // O5: a nil reply reaches the script as false (Redis convention)
+    if let (Ok(r), Some(sw)) = (&direct, &seen) {
+        if has_nil(r) && !refused && sw.contains("LNil") { out.known("C16-lua-nil-not-false", idx, detail.clone()); }
+    }
+    let direct_term = match &direct { Ok(r) => format!("(DReply {})", resp_term(r)), Err(e) => format!("(DParseErr {})", chex(e.as_bytes())) };
+    let dom = parts.iter().all(|p| in_model_domain(&Frame::Arr(vec![El::Bulk(p.clone())])));
+    if dom {
+        let term = format!("(KL {} {} {} {} {})", clist(parts.iter(), |p| chex(p)), cbool(use_call), direct_term, resp_term(&rb), match &seen { Some(t) => format!("(Some {})", t), None => "None".to_string() });
+        out.case(idx, term, direct.is_ok(), &format!("{:?}{:?}", setup, parts));
+    }
+    if verbose {
+        println!("case {} [L {}]\n prefix: {:?}\n invocation: {}\n direct -> {:?}\n redis.{} -> {:?}\n script saw -> {:?}\n keyspace direct: {:?}\n keyspace script: {:?}", idx, label, setup.iter().map(|f| parts_show(f)).collect::<Vec<_>>(), parts_show(&parts), direct, fname, rb, seen, da, db);
+    }
+}
+
+fn case_v(out: &mut Out, rng: &mut Rng, idx: u64, verbose: bool) {
+    let v = gen_lv(rng, 3);
+    out.count("stream:V");
+    let src = format!("return {}", lv_src(&v));
+    let mut ex = CommandExecutor::new();
+    let r = match eval(&mut ex, &src, &[]) { Ok(r) => r, Err(m) => { out.violation(idx, "EVAL panicked", json!({"script": src, "panic": m})); return; } };
+    out.impl_checks += 1;
+    let term = format!("(KV {} {})", lv_term(&v), resp_term(&r));
+    out.case(idx, term, matches!(v, LV::Tab(..)), &src);
+    if verbose {
+        println!("case {} [V]\n script: {}\n reply -> {:?}", idx, src, r);
+    }
 }
